@@ -12,11 +12,16 @@
 mod codec;
 mod common;
 mod credit;
+mod e2e;
 mod frame;
+mod ids;
+mod life;
 mod peer;
 mod reasm;
 mod recvcredit;
 mod session;
+mod sessionwire;
+mod spinprobe;
 
 use common::Opts;
 
@@ -72,6 +77,9 @@ fn main() {
         "frame" => frame::main(&opts),
         "recvcredit" => recvcredit::main(&opts),
         "reasm" => reasm::main(&opts),
+        "ids" => ids::main(&opts),
+        "sessionwire" => sessionwire::main(&opts),
+        "life" => life::main(&opts),
         other => {
             eprintln!("unknown module {}", other);
             std::process::exit(64);
